@@ -4,10 +4,10 @@ from checks import semcommon
 from lib import vlib
 
 RULE = ("programs: 9 import graphs over 3 source modules (independent, edge, diamond, chain, fan-out, cycles of length 1/2/3, unknown "
-        "module) x 6 import-site shapes in the main script (twice at top level, through a function called twice, in a taken / untaken "
+        "module) x 14 import-site shapes in the main script (a builtin module whose nested and top-level values are changed in place, twice at top level, through a function called twice, in a taken / untaken "
         "branch and a loop, only inside an uncalled function, diamond probes writing through one path and reading through another); "
         "the reference semantics gives the load log, the probe values and whether the compiler must refuse; replay x optimizer on/off "
-        "x encode/decode round trip x second run on the same VM; non-trivial = graphs with at least one edge")
+        "x encode/decode round trip x second run on the same VM x run of a second VM on the same Bytecode (the first run must be invisible to it); non-trivial = graphs with at least one edge")
 
 def strip_loads(obs):
     try:
@@ -21,7 +21,8 @@ def run(ctx):
     out = ctx.path("c12.ndjson")
     ctx.tlc("UgoSemFam", "UgoSemFam_c12", env=dict(OUT=out), timeout=2400, name="c12")
     res = ctx.path("c12-res.ndjson")
-    cfgs = ["default", "noopt", "default+rt", "noopt+twice"] if ctx.quick else ["default", "noopt", "limit1", "default+rt", "noopt+rt", "default+twice", "noopt+twice", "default+rt+twice"]
+    cfgs = (["default", "noopt", "default+rt", "noopt+twice", "default+vm2", "noopt+rt+vm2"] if ctx.quick else
+            ["default", "noopt", "limit1", "default+rt", "noopt+rt", "default+twice", "noopt+twice", "default+rt+twice", "default+vm2", "noopt+vm2", "default+rt+vm2", "noopt+rt+vm2"])
     ctx.vh("sem", out, res, ",".join(cfgs))
     n = 0
     for r in vlib.read_ndjson(res):
